@@ -61,6 +61,7 @@ type Cell struct {
 	Parent *Cell
 	Idx    int
 	id     int
+	age    int  // allocation order used by merge guards (lazily created array elements inherit the array's)
 	base   bool // allocated by a package initialiser: mutations are undone at path end
 	// Sparse arrays: when Lazy is set Kids[i]==nil means "zero value of elem type".
 	Lazy bool
@@ -92,6 +93,7 @@ type IterV struct {
 	S    StrV
 	Pos  int
 	IsS  bool
+	seq  int
 }
 
 type namedConst struct{}
@@ -218,7 +220,7 @@ func (ex *Exec) zero(t types.Type) Value {
 // newCell allocates a cell tree for type t, zero-initialised.
 func (ex *Exec) newCell(t types.Type) *Cell {
 	ex.cellSeq++
-	c := &Cell{T: t, id: ex.cellSeq, base: ex.initMode > 0}
+	c := &Cell{T: t, id: ex.cellSeq, age: ex.cellSeq, base: ex.initMode > 0}
 	switch u := t.Underlying().(type) {
 	case *types.Struct:
 		c.Kids = make([]*Cell, u.NumFields())
@@ -257,6 +259,7 @@ func (ex *Exec) kid(c *Cell, i int) *Cell {
 	if k == nil {
 		k = ex.newCell(c.elemType())
 		k.Parent, k.Idx = c, i
+		setAge(k, c.age) // the element exists since the array was allocated
 		c.Kids[i] = k
 		if c.base && ex.initMode == 0 {
 			ex.undo = append(ex.undo, undoRec{c: c, kidI: i, kind: 1})
@@ -437,3 +440,12 @@ func (ex *Exec) concreteStr(s StrV) (string, bool) {
 }
 
 func (ex *Exec) intConst(v int64) *smt.Term { return ex.ctx.BV(64, uint64(v)) }
+
+func setAge(c *Cell, age int) {
+	c.age = age
+	for _, k := range c.Kids {
+		if k != nil {
+			setAge(k, age)
+		}
+	}
+}
